@@ -24,7 +24,24 @@ TSheet == /\ l <= Len(Rec) /\ Ev.e = "sheet"
                = {<<Ev.tokens[i].p[1], Ev.tokens[i].p[2]>> :
                     i \in {j \in 1..Len(Ev.tokens) : Ev.tokens[j].k = "c" /\ Ev.tokens[j].v # "none"}}
           /\ l' = l + 1
-Next == TSheet
+\* fixture-driven events (harness/src/fixtures.rs): the tokens come from an independent tokeniser
+\* of a real-world worksheet part, values are compared by coarse kind
+RunK(toks) == FoldLeft(RStepK, RInit, toks)
+\* from_sparse on a cell list whose positions are strictly ascending in row-major order (what
+\* real files contain) without the quadratic LastAt search; otherwise the general operator
+Ascending(out) == \A i \in 1..(Len(out) - 1) : Less(out[i][1], out[i + 1][1])
+SparseOf(out) ==
+  IF out = <<>> \/ ~Ascending(out) THEN FromSparseOf(out)
+  ELSE LET n == Len(out)  cs == {out[i][1][2] : i \in 1..n}
+       IN [start |-> <<out[1][1][1], Min(cs)>>, end |-> <<out[n][1][1], Max(cs)>>,
+           cells |-> [i \in 1..n |-> <<out[i][1][1], out[i][1][2], out[i][2]>>]]
+TFixture == /\ l <= Len(Rec) /\ Ev.e = "fixture"
+            /\ "error" \notin DOMAIN Ev
+            /\ LET r == SparseOf(RunK(Ev.tokens).out)
+               IN /\ r.start = Ev.start /\ r.end = Ev.end
+                  /\ r.cells = Ev.cells
+            /\ l' = l + 1
+Next == TSheet \/ TFixture
 Spec == Init /\ [][Next]_l
 
 Accepted ==
